@@ -2,6 +2,7 @@ import vlib
 
 class P(vlib.Prop):
     id = "C07"
+    watch = ("pkg/tarfs/fs.go", "pkg/apk/apk/install.go", "pkg/apk/apk/implementation.go", "pkg/apk/apk/installed.go", "pkg/apk/apk/package.go")
     rule = ("one stage per filesystem backend (tarfs.New(), apkfs.NewMemFS(), apkfs.DirFS(tmp)): a corpus of hand-picked ordered package lists "
             "(every row of the rule table, both empty-origin rows, versioned replaces, three-package chains, symlinks, hard links, directories with "
             "different modes, non-root owners, files without directory headers, a package shipping the keyring file, FixateWorld order) followed by "
